@@ -605,7 +605,58 @@ func verName(v uint16) string {
 	return "1.2"
 }
 
+// racePass is the body of the free-running -race build (VSCHED_RACEPASS): crypto/tls calls VerifyConnection
+// concurrently for handshakes that share a *tls.Config (http.Transport opening parallel connections, the RTSP
+// tunnel, config clones share the closure too), so for every chain 8 handshakes run concurrently on ONE config
+// returned by MakeConfig and on clones of it, with the pinned and with a non-matching fingerprint. The race
+// detector decides (happens-before analysis of whatever state the closure shares); the verdicts of the
+// handshakes are also compared with the model.
+func racePass(chains []*chain, reps int, dir string) {
+	for _, c := range chains {
+		for rep := 0; rep < reps; rep++ {
+			for _, fp := range []string{sha256hex(c.leaf.Raw), strings.Repeat("ab", 32)} {
+				want := modelAccept(c, fp)
+				conf := ptls.MakeConfig(fp)
+				var wg sync.WaitGroup
+				for k := 0; k < 8; k++ {
+					cc := conf
+					if k%2 == 1 {
+						cc = conf.Clone()
+						cc.ServerName = host
+					}
+					ver := uint16(tls.VersionTLS12)
+					if k%4 >= 2 {
+						ver = tls.VersionTLS13
+					}
+					wg.Add(1)
+					go func() {
+						defer wg.Done()
+						err, _ := oneConn(cc, serverConf(c, ver))
+						if (err == nil) != want {
+							fmt.Fprintf(os.Stderr, "RACEPASS-WRONG chain=%s fingerprint=%s concurrent handshake on a shared config: model accept=%v, got error %v\n", c.name, fp, want, err)
+						}
+					}()
+				}
+				wg.Wait()
+			}
+		}
+		fmt.Fprintf(os.Stderr, "RACEPASS-DONE %s x%d\n", c.name, reps)
+	}
+	os.RemoveAll(dir)
+	os.Exit(0)
+}
+
 func main() {
+	if n := os.Getenv("VSCHED_RACEPASS"); n != "" {
+		dir, err := os.MkdirTemp("", "verif-c41-race-")
+		if err != nil {
+			vcommon.Harness("tempdir: %v", err)
+		}
+		chains := buildChains(dir)
+		reps := 1
+		fmt.Sscanf(n, "%d", &reps)
+		racePass(chains, reps, dir)
+	}
 	r := vcommon.Start("C41", "exploration")
 	dir, err := os.MkdirTemp("", "verif-c41-")
 	if err != nil {
@@ -721,6 +772,7 @@ func main() {
 	r.Set("handshake_cases_rejected", rejected)
 	r.Set("second_connections_resumed", resumedN)
 	r.Set("empty_fingerprint_cases", emptyN)
+	raceRuns := vcommon.RacePass(r, 2)
 	cleanup()
 	if harnessErr != "" {
 		vcommon.Harness("%s", harnessErr)
@@ -734,6 +786,7 @@ func main() {
 		"the 'leaf' is the first certificate the server presents (TLS definition)",
 		"keys are freshly generated per run (crypto/rand); the verdict does not depend on them",
 		"callers are represented by four usages of the returned *tls.Config (as is, Clone+ServerName+ALPN, net/http Transport, session cache); QUIC/DTLS users are not driven",
+		fmt.Sprintf("concurrent use of one returned config (crypto/tls calls VerifyConnection concurrently) is covered by a separate free-running -race pass of %d shared-config handshake groups, not by schedule enumeration: the closure has no synchronisation operations a scheduler could interleave at", raceRuns),
 		"trusted root pool = one generated root installed through SSL_CERT_FILE/SSL_CERT_DIR of the harness process",
 	}
 	r.Finish()
